@@ -14,7 +14,14 @@ import (
 	"golang.org/x/tools/go/ssa/ssautil"
 )
 
-const repoRoot = "/repo"
+// repoRoot is the tree under verification. GOVC_REPO overrides it for contract development in a
+// scratch worktree; every registered check runs without it, against /repo.
+var repoRoot = func() string {
+	if r := os.Getenv("GOVC_REPO"); r != "" {
+		return r
+	}
+	return "/repo"
+}()
 const modulePath = "go.brendoncarroll.net/p2p"
 
 func LoadEngine() (*Engine, error) {
